@@ -101,6 +101,12 @@ pub fn gen(rng: &mut Rng, size: usize) -> Value {
                 f.push_str(*rng.pick(&["\n", "\r\n", "\r"]));
                 continue;
             }
+            if rng.chance(1, 6) {
+                // an ordinary line of mixed-width characters, 0..40 characters long
+                f.push_str(&uni_string(rng, 40));
+                f.push_str(*rng.pick(&["\n", "\r\n", "\r"]));
+                continue;
+            }
             f.push_str(match rng.below(9) {
                 0 => "//# sourceMappingURL=",
                 1 => "//@ sourceMappingURL=",
